@@ -23,6 +23,11 @@ specification: everything behind '!' is ignored, REM is never continued, a blank
   instructions of the generated input (whatever its layout: breaks anywhere, '=' marks with comments behind them, '=' and
   '!' inside comments) and the texts handed to add_line / replace_line / Command.set / insert_anis are in the file with
   exactly their tokens; no bare number / empty / parameterless keyword line; file text = model text.
+Keyword files (wave 3): every SHELXL keyword in every form, the instructions between the atoms, the atoms and the fixed header
+lines, each CONTINUED IN THE INPUT by the generator's own layout (directly behind the keyword, behind every token, greedy, ragged,
+comments behind the marks) or with a comment / blanks beyond column 80; read_string / read_file, LF / CRLF, fresh or used object;
+written after read, after every edit and after a re-read of the written file. By construction every generated instruction of any
+keyword must be in the written file with its tokens (`same_instruction`: numbers by value, words without case).
 The comment-aware reading is a harness-level oracle: the theorems are about the plain lexer (`code_eq_self`,
 `flaggedC_eq_flagged` show that both agree on comment-free, non-REM lines).
 """
@@ -160,6 +165,30 @@ def random_line(rng, cls):
     return dict(kind='line', cls=cls, s=s)
 
 
+def threshold_cases(rng):
+    """the instruction itself ends on every column 66..80, what follows it (a '!' comment, trailing blanks, both) takes the line
+    to 81, 82, 83, 90, 130, 200 columns: whether a line has to be wrapped must depend on its whole length"""
+    out = []
+    for c in range(66, COLS + 1):
+        for total in (81, 82, 83, 90, 130, 200):
+            for tail in ('comment', 'blanks', 'comment+blanks', 'bang'):
+                code = fill_to(rng, c, (1,), first=rng.choice(['SADI', 'OMIT', 'EQIV $1', 'TEMP', 'MOLE 1', 'DFIX 1.5']))
+                if tail == 'blanks':
+                    s = code + ' ' * (total - c)
+                elif tail == 'bang':            # the comment directly behind the last token
+                    if total - c < 2:
+                        continue
+                    s = code + '!' + fill_to(rng, total - c - 1, (1,), first='x')[:total - c - 1]
+                else:
+                    k = 2 if tail == 'comment+blanks' else 0
+                    if total - c - k < 3:
+                        continue
+                    s = code + ' !' + fill_to(rng, total - c - 2 - k, (1,), maxtok=7, first=rng.choice(['a', 'see', 'd=1']))[:total - c - 2 - k] + ' ' * k
+                assert len(s) == total and len(s.split('!')[0].rstrip()) == c, (c, total, tail, s)
+                out.append(dict(kind='line', cls='threshold/' + tail, s=s))
+    return out
+
+
 LINE_CLASSES = ['short-tokens', 'names', 'long-token', 'hyphen', 'minus', 'comment', 'blank-runs', 'equals', 'random']
 
 
@@ -186,6 +215,12 @@ def restraint_line(rng, names, hy=False):
 
 RESTR_KW = {'SADI', 'DFIX', 'DANG', 'EADP', 'FLAT', 'SIMU', 'RIGU', 'DELU', 'ISOR', 'CHIV', 'SAME', 'BIND', 'FREE', 'CONF', 'MPLA',
             'BOND', 'HTAB', 'ANIS'}
+KEYWORDS = {'ABIN', 'ACTA', 'AFIX', 'ANIS', 'ANSC', 'ANSR', 'BASF', 'BIND', 'BLOC', 'BOND', 'BUMP', 'CELL', 'CGLS', 'CHIV', 'CONF', 'CONN',
+            'DAMP', 'DANG', 'DEFS', 'DELU', 'DFIX', 'DISP', 'EADP', 'END', 'EQIV', 'EXTI', 'EXYZ', 'FEND', 'FLAT', 'FMAP', 'FRAG', 'FREE',
+            'FVAR', 'GRID', 'HFIX', 'HKLF', 'HOPE', 'HTAB', 'ISOR', 'LATT', 'LAUE', 'LIST', 'L.S.', 'MERG', 'MOLE', 'MORE', 'MOVE', 'MPLA',
+            'NCSY', 'NEUT', 'OMIT', 'PART', 'PLAN', 'PRIG', 'REM', 'RESI', 'RIGU', 'RTAB', 'SADI', 'SAME', 'SFAC', 'SHEL', 'SIMU', 'SIZE',
+            'SLIM', 'SPEC', 'STIR', 'SUMP', 'SWAT', 'SYMM', 'TEMP', 'TIME', 'TITL', 'TWIN', 'TWST', 'UNIT', 'WGHT', 'WIGL', 'WPDB', 'XNPD',
+            'ZERR', 'BEDE', 'LONE', 'CHAN', 'FLAP', 'RNUM', 'SOCC', 'RANG', 'TANG', 'ADDA', 'STAG', 'REST', 'NOTR'}
 COMMENTS = ['target d=1.45', 'esd=0.02', 'see text', 'a=b', 'the C-C and C-O distances', 'x ! y', '=', 'checked = ok =', 'e.s.d. = 0.02 !']
 
 
@@ -193,22 +228,36 @@ def code_tokens(ln):
     return ln.split('!')[0].split()
 
 
-def layout_input(rng, ln, force=False):
+def layout_input(rng, ln, force=False, modes=None, cmodes=None, wide=None):
     """physical lines (<= 80 columns) of one instruction of the INPUT file, the generator's own layout, independent of the
-    code under test: breaks between any two tokens, ' =' / '  =' marks, 1..5 blanks in front of continuation lines,
+    code under test: breaks between any two tokens (mode 'keyword': directly behind the keyword, mode 'every': behind every
+    token, i.e. many continuation lines), ' =' / '  =' marks, 1..5 blanks in front of continuation lines,
     '!' comments behind continuation marks and on the last line, with and without '=' or '!' in the comment text
-    (a mark inside a comment is not a mark, so a comment is only ever put behind the code of its physical line)"""
+    (a mark inside a comment is not a mark, so a comment is only ever put behind the code of its physical line).
+    wide = 'comment' / 'blanks': the instruction is on one line and fits into 80 columns, but a trailing comment / trailing
+    blanks reach beyond column 80 (SHELXL ignores them; the writer must not reproduce them beyond column 80)"""
     if ln.startswith(('TITL', 'REM')):
         return [ln[:COLS]]
     code, _, comment = ln.partition(' !')
     toks = code.split()
-    mode = rng.choice(['greedy', 'greedy', 'ragged', 'ragged', 'early'])
-    cmode = rng.choice(['none', 'none', 'last', 'marks', 'first', 'all'])
+    if wide and len(' '.join(toks)) <= COLS:
+        text = ' '.join(toks)
+        if wide == 'blanks':
+            return [text + ' ' * (COLS - len(text) + rng.choice([1, 2, 3, 10, 60]))]
+        c = comment.strip() or rng.choice(COMMENTS)
+        text += rng.choice([' ! ', ' !', '  ! ']) + c
+        while len(text) <= COLS:
+            text += ' ' + rng.choice(COMMENTS + ['and', 'more', 'words', 'x'])
+        return [text]
+    mode = rng.choice(modes or ['greedy', 'greedy', 'ragged', 'ragged', 'early'])
+    cmode = rng.choice(cmodes or ['none', 'none', 'last', 'marks', 'first', 'all'])
     if len(code) <= COLS and not force and rng.random() < 0.5:
         mode = 'single'
+    if mode == 'every' and len(toks) > 14:
+        mode = 'ragged'
 
     def limit():
-        return COLS - 3 if mode == 'greedy' else 10 ** 6 if mode == 'single' else rng.randint(24, COLS - 3)
+        return COLS - 3 if mode in ('greedy', 'keyword') else 10 ** 6 if mode == 'single' else 0 if mode == 'every' else rng.randint(24, COLS - 3)
 
     def close(cur, last, k):
         text = cur if last else cur + rng.choice([' =', ' =', '  ='])
@@ -222,10 +271,11 @@ def layout_input(rng, ln, force=False):
                 text = cand
         return text
 
-    res, cur, lim = [], toks[0], limit()
+    first_min = 1 if mode in ('keyword', 'every') else 2
+    res, cur, lim = [], toks[0], (0 if mode == 'keyword' else limit())
     for t in toks[1:]:
         cand = cur + ' ' * (1 if mode == 'single' else rng.choice([1, 1, 1, 2])) + t
-        if len(cand) > lim and len(cur.split()) >= (2 if not res else 1):
+        if len(cand) > lim and len(cur.split()) >= (first_min if not res else 1):
             res.append(close(cur, False, len(res)))
             cur = ' ' * rng.choice([1, 2, 3, 3, 5]) + t
             lim = limit()
@@ -233,7 +283,27 @@ def layout_input(rng, ln, force=False):
             cur = cand
     res.append(close(cur, True, len(res)))
     assert all(len(x) <= COLS for x in res), res
+    if wide and len(res) > 1:
+        # a physical line of the continued instruction reaches beyond column 80 by trailing blanks / by its comment only
+        k = rng.randrange(len(res))
+        if wide == 'blanks':
+            res[k] += ' ' * (COLS - len(res[k]) + rng.choice([1, 2, 3, 10, 60]))
+        else:
+            if '!' not in res[k]:
+                res[k] += rng.choice([' ! ', ' !', '  ! ']) + rng.choice(COMMENTS)
+            while len(res[k]) <= COLS:
+                res[k] += ' ' + rng.choice(COMMENTS + ['and', 'more', 'words', 'x'])
     return res
+
+
+def pad_names(rng, text, n, names):
+    """the instruction `text` with further atom names behind it, exactly n characters long (n >= len(text) + 2)"""
+    while n - len(text) >= 2:
+        left = n - len(text) - 1
+        cand = [a for a in names if len(a) == left or len(a) <= left - 2]
+        t = rng.choice(cand) if cand else 'C' + '1' * (left - 1)
+        text += ' ' + t
+    return text
 
 
 def edit_op(rng, names, restr, natoms):
@@ -246,7 +316,7 @@ def edit_op(rng, names, restr, natoms):
     # what kind of line(s) the text is: an instruction, a blank-led comment, a commented-out instruction, a REM / '!'
     # comment, an instruction with a hand-made continuation, a comment line followed by an instruction
     kind = rng.choice(['instruction', 'instruction', 'instruction', 'comment', 'commented-out', 'rem', 'bang', 'hand-continued',
-                       'comment+instruction', 'padded'])
+                       'comment+instruction', 'padded', 'keyword', 'keyword-continued', 'long-comment', 'long-blanks'])
     short = restraint_line(rng, names).split(' !')[0]
     while len(short) > 60:
         short = restraint_line(rng, names).split(' !')[0]
@@ -267,6 +337,16 @@ def edit_op(rng, names, restr, natoms):
         text = ' ' + words + '\n' + short
     elif kind == 'padded':
         text = short + ' ' * rng.choice([1, 3])
+    elif kind in ('keyword', 'keyword-continued'):
+        # any instruction of SHELXL, as one line or with a hand-made continuation (directly behind the keyword, behind every token …)
+        text = rng.choice(keyword_forms(rng, names))[2]
+        if kind == 'keyword-continued':
+            text = '\n'.join(layout_input(rng, text, force=True, modes=LAYOUT_MODES))
+    elif kind in ('long-comment', 'long-blanks'):
+        # the instruction fits into 80 columns (often just: 75..80), instruction + '!' comment / trailing blanks do not
+        code = short if rng.random() < 0.4 else pad_names(rng, rng.choice(['EADP', 'FLAT', 'SIMU 0.04 0.08', 'RIGU', 'DELU', 'ISOR 0.1', 'BOND', 'SAME']),
+                                                          rng.randint(75, COLS), names)
+        text = layout_input(rng, code, wide='comment' if kind == 'long-comment' else 'blanks')[0]
     if r < 0.25:
         return dict(op='add_line', where=rng.choice(['unit', 'fvar', 'atom', 'first']), text=text, text_kind=kind)
     nheader = len(restr)
@@ -349,6 +429,164 @@ def make_file_case(rng, cls=None):
     header_phys = [layout_input(rng, h, force) for h in header]
     return dict(kind='file', cls=cls, titl=titl, sfac=sfac, unit=unit, fvars=fvars, fvar_per_line=rng.choice([7, 7, 3, 10]),
                 header=header, header_phys=header_phys, atoms=atoms, explicit=explicit, ops=ops)
+
+
+# ------------------------------------------------------------------------------------------------
+# generators: every SHELXL instruction, in every place of the file, continued in the input
+
+# instructions gen.instruction_forms does not know: the SHELXL-2019 ones, the undocumented ones the program accepts, lists of
+# numbers that are long enough to need a continuation line
+def extra_forms(rng, names):
+    at = lambda n: ' '.join(rng.choice(names) for _ in range(n))
+    num = lambda: rng.choice(['{:.3f}', '{:.5f}', '{:.2f}']).format(rng.uniform(0.011, 0.97) * rng.choice([1, 10]))
+    out = [('BEDE', 'full', f'BEDE {at(2)} 0.5 {num()} {num()} {num()} {num()} 1.5 2.5'),
+           ('LONE', 'short', f'LONE 6 1 0.35 0.36 109.5 {at(3)}'),
+           ('LONE', 'long', f'LONE 6 1 0.35 0.36 109.5 {at(rng.choice([18, 30, 45]))}'),
+           ('LAUE', 'E', 'LAUE ' + rng.choice(ELEMENTS)),
+           ('TIME', 'num1', 'TIME 600'), ('HOPE', 'num1', 'HOPE 3'), ('MOLE', 'num1', 'MOLE 3'),
+           ('SHEL', 'num2', 'SHEL 99 0.8'),
+           ('BASF', 'long', 'BASF ' + ' '.join(num() for _ in range(rng.choice([12, 20, 30])))),
+           ('SUMP', 'long', 'SUMP 1.0 0.01 ' + ' '.join(f'{num()} {k}' for k in range(2, rng.choice([14, 24])))),
+           ('OMIT', 'long', f'OMIT {at(rng.choice([18, 30]))}'), ('OMIT', 'hkl', 'OMIT -3 55'),
+           ('EQIV', 'op', f'EQIV ${rng.randint(1, 9)} -x+1, -y+1/2, z-1/2'),
+           ('CONN', 'long', f'CONN 12 1.5 {at(24)}'), ('HFIX', 'long', f'HFIX 43 {at(24)}'),
+           ('ANIS', 'long', f'ANIS {at(30)}'), ('EXYZ', 'long', f'EXYZ {at(22)}'),
+           ('TWIN', 'matrix', 'TWIN -1 0 0 0 -1 0 0 0 1 -4'),
+           ('HTAB', 'atoms', f'HTAB {at(2)}_$1'), ('RTAB', 'long', f'RTAB Plan {at(20)}')]
+    for kw in ('CHAN', 'FLAP', 'RNUM', 'SOCC', 'RANG', 'TANG', 'ADDA', 'STAG', 'REST', 'NOTR'):
+        out.append((kw, 'num', f'{kw} ' + ' '.join(str(rng.randint(3, 9)) for _ in range(rng.randint(1, 3)))))
+    return out
+
+
+def keyword_forms(rng, names):
+    """[(keyword, form, text)]: every instruction keyword of SHELXL that may stand between UNIT and the atoms, in every form
+    (gen.instruction_forms), long atom-list instructions, and the instructions above"""
+    forms = []
+    for kw, form, text in gen.instruction_forms(rng, names) + gen.long_instructions(rng, 12) + extra_forms(rng, names):
+        toks = text.split()
+        if kw in ('REM', 'NEUT') or (len(toks) == 1 and keyword_of(toks[0]) in NEEDS_PARAM):
+            continue        # free text / changes the meaning of SFAC / not an instruction without its parameters
+        if kw in ('DFIX', 'DANG'):
+            # the target must be larger than its standard deviation (the library refuses the file otherwise)
+            nums = [i for i in range(1, len(toks)) if normtok(toks[i])[0] == 'n' and all(normtok(t)[0] == 'n' for t in toks[1:i])]
+            for i, v in zip(nums, (f'{rng.uniform(1.2, 2.9):.3f}', rng.choice(['0.03', '0.015', '2e-2']))):
+                toks[i] = v
+            text = ' '.join(toks)
+        if kw == 'DEFS':
+            # plausible default standard deviations (huge ones make the library refuse every DANG/DFIX behind them)
+            text = ' '.join(['DEFS'] + [f'0.0{rng.randint(1, 4)}5', '0.15', '0.015', '0.045', '0.9'][:len(toks) - 1])
+        forms.append((kw, form, text))
+    return forms
+
+
+def body_script(rng, natoms, names):
+    """the atom list with the instructions SHELXL allows between atoms: ('atom', i) / ('ins', text)"""
+    out = []
+    opened = set()
+    for i in range(natoms):
+        r = rng.random()
+        if r < 0.5:
+            ins = rng.choice(['PART 1 21', 'PART 2 -21', 'PART -1', 'PART 1', 'PART 2 10.5', 'AFIX 66', 'AFIX 43', 'AFIX 137 0.98',
+                              'AFIX 23 0.97 11 -1.2', 'RESI 1 CCF3', 'RESI CCF3 2', 'RESI 3', 'RESI 4 TOL A', 'MOLE 1',
+                              'SAME ' + ' '.join(rng.choice(names) for _ in range(rng.choice([2, 6, 24]))),
+                              'HFIX 13 ' + rng.choice(names), 'ANIS 2', 'SPEC 0.2', 'MOVE 1 1 1 -1', 'MOVE 0.5 0 0.5'])
+            out.append(('ins', ins))
+            opened.add(ins.split()[0])
+        out.append(('atom', i))
+        if 'AFIX' in opened and rng.random() < 0.5:
+            out.append(('ins', 'AFIX 0'))
+            opened.discard('AFIX')
+        if rng.random() < 0.1:
+            out.append(('ins', 'FRAG 17 1 1 1 90 90 90'))
+            for k in range(rng.randint(1, 3)):
+                out.append(('ins', f'C{k + 1} 1 {0.1 * k:.5f} {1.0 + 0.25 * k:.5f} {-0.5 * k:.5f}'))
+            out.append(('ins', 'FEND'))
+    for kw in ('AFIX', 'PART', 'RESI'):
+        if kw in opened:
+            out.append(('ins', f'{kw} 0'))
+    return out
+
+
+# the instructions whose tokens are not kept one to one by any printer (C01 states what happens to them)
+NOT_TOKEN_EXACT = {'TITL', 'REM', 'SYMM', 'FVAR', 'END'}
+
+
+def keyword_of(tok):
+    return tok.upper().split('_')[0][:4]
+
+
+def make_atoms(rng, sfac, n, p_aniso=0.4, nfv=1):
+    used = set()
+    atoms = []
+    for i in range(n):
+        k = rng.randrange(len(sfac)) + 1
+        name = gen.atom_name(rng, sfac[k - 1], used)
+        xyz = tuple(round(rng.uniform(-0.2, 1.2), 6) for _ in range(3))
+        if rng.random() < p_aniso:
+            u = tuple([round(rng.uniform(0.01, 0.09), 5) for _ in range(3)] + [round(rng.uniform(-0.02, 0.02), 5) or 0.001 for _ in range(3)])
+        else:
+            u = (round(rng.uniform(0.01, 0.09), 5),)
+        sof = rng.choice([11.0, 10.5, 21.0, -21.0, 31.0, 10.25]) if nfv >= 3 else 11.0
+        atoms.append(dict(name=name, sfac=k, xyz=xyz, sof=sof, u=u))
+    return atoms
+
+
+LAYOUT_MODES = ['keyword', 'every', 'greedy', 'ragged', 'early']
+
+
+def make_keyword_case(rng, picks=None, mode=None, wide=None, cls='keywords', ops=0):
+    """a complete file in which EVERY line but TITL (the header lines CELL … UNIT, the picked instructions, the instructions
+    between the atoms, the atoms themselves, HKLF, the weighting scheme behind END) is laid out by the generator: continued
+    directly behind the keyword, behind every token, greedily, raggedly; with comments behind the marks. The physical text of
+    the input is part of the case."""
+    nel = rng.randint(2, 5)
+    sfac = rng.sample(ELEMENTS, nel)
+    unit = [rng.choice([1, 2, 4, 8, 12, 16, 24, 36, 48, 96, 0.5, 2.5, 1200]) for _ in sfac]
+    nfv = rng.choice([1, 3, 6, 8, 15])
+    fvars = [round(rng.uniform(0.05, 1.5), 5)] + [round(rng.uniform(0.05, 0.95), 5) for _ in range(nfv - 1)]
+    atoms = make_atoms(rng, sfac, rng.randint(3, 8), nfv=nfv)
+    names = [a['name'] for a in atoms]
+    if picks is None:
+        forms = keyword_forms(rng, names)
+        picks = [rng.choice(forms)[2] for _ in range(rng.randint(3, 9))]
+    fs = gen.FileSpec(titl='verif ' + word(rng, 5), sfac=list(sfac), unit=list(unit), fvars=list(fvars))
+    fs.cell = gen.rand_cell(rng)
+    fs.latt = rng.choice([-1, 1, 2, -2])
+    fs.symm = [rng.choice(gen.SYMM_OPS)] if rng.random() < 0.3 else []
+    fs.header = list(picks)
+    fs.fvar_per_line = rng.choice([7, 7, 3, 10])
+    specs = [gen.AtomSpec(a['name'], a['sfac'], tuple(a['xyz']), a['sof'], tuple(a['u'])) for a in atoms]
+    fs.body = [specs[x] if k == 'atom' else x for k, x in body_script(rng, len(atoms), names)]
+    fs.hklf = rng.choice(['HKLF 4', 'HKLF 4', 'HKLF 5 0.5', 'HKLF 4 0.7 0 1 0 -1 0 0 0 0 1'])
+    fs.tail = [rng.choice(['WGHT 0.0421 0.5678', 'WGHT 0.1', 'WGHT 0.0312 1.2345 0 0 0 0.3333'])] if rng.random() < 0.6 else []
+    logical = fs.lines()
+    if rng.random() < 0.3:      # DISP has its place between SFAC and UNIT
+        k = next(i for i, ln in enumerate(logical) if ln.startswith('SFAC')) + 1
+        logical[k:k] = [f'DISP {el} {rng.uniform(-0.5, 0.5):.4f} {rng.uniform(0.001, 3):.4f} {rng.uniform(1, 900):.2f}' for el in rng.sample(sfac, rng.randint(1, len(sfac)))]
+    phys = []
+    for ln in logical:
+        w = wide if (wide and rng.random() < 0.6) else None
+        phys.extend(layout_input(rng, ln, force=rng.random() < 0.8, modes=[mode] if mode else LAYOUT_MODES, wide=w))
+    header = [ln for ln in logical if keyword_of(ln.split()[0]) in KEYWORDS and keyword_of(ln.split()[0]) not in NOT_TOKEN_EXACT]
+    restr = [h for h in header if keyword_of(h.split()[0]) in RESTR_KW]
+    case = dict(kind='file', cls=cls, titl=fs.titl, sfac=sfac, unit=unit, fvars=fvars, fvar_per_line=fs.fvar_per_line,
+                header=header, atoms=atoms, explicit=None, input='\n'.join(phys) + '\n', all_known=True,
+                via=rng.choice(['read_string', 'read_string', 'read_file']), dirty=rng.random() < 0.25, reread=rng.random() < 0.3,
+                crlf=rng.random() < 0.15,
+                ops=[edit_op(rng, names, restr, len(atoms)) for _ in range(ops)])
+    return case
+
+
+def systematic_keyword_cases(rng, per_file=7):
+    """every keyword in every form, once continued directly behind the keyword and once in another layout"""
+    names = ['C1', 'C2', 'O1', 'N1', 'C3', 'C4', 'C5', 'C6']
+    out = []
+    for mode in ('keyword', None):
+        texts = [t for _, _, t in keyword_forms(rng, names) if len(t.split()) > 1]
+        for i in range(0, len(texts), per_file):
+            c = make_keyword_case(rng, picks=texts[i:i + per_file], mode=mode, cls='keywords/' + (mode or 'mixed'))
+            out.append(c)
+    return out
 
 
 def render_file(case):
@@ -441,11 +679,47 @@ def inserted_lines(lx):
     return [[c, pl.startswith(' '), pl.split()] for c, pl in lx['classes'] if len(pl) <= COLS and c != 'blank']
 
 
+DIRTY = ('TITL dirty\nCELL 0.71073 7 8 9 90 90 90\nZERR 2 0.001 0.001 0.001 0 0 0\nLATT 2\nSYMM -x, -y, z\nSFAC C N S\nUNIT 4 4 2\n'
+         'LONE 6 1 0.35 0.36 109.5 N1 =\n   C1 C2\nSADI C1 C2 =\n  N1 C2\nOMIT -3 =\n 55 ! dirty = comment\nFVAR 0.5 0.25\nPART 1 =\n 21\n'
+         'C1 1 0.1 0.2 0.3 21.0 0.05\nC2 1 0.2 0.3 0.4 21.0 0.04 0.05 =\n  0.06 0.01 0.02 0.03\nPART 0\nN1 2 0.3 0.4 0.5 11.0 0.05\n'
+         'HKLF 4\nEND\n')
+
+
+def normtok(t):
+    """numbers are compared by value, words without case (a printer may respell 7.077e-01 as 0.7077, SADI_tol as SADI_TOL)"""
+    try:
+        return ['n', round(float(t), 7)]
+    except ValueError:
+        return ['s', t.upper()]
+
+
+def same_instruction(want, got):
+    """the written instruction has the tokens of the generated one; a purely numeric instruction may be printed with further
+    (default) numbers behind them"""
+    w, g = [normtok(t) for t in want], [normtok(t) for t in got]
+    if w == g:
+        return True
+    return len(g) > len(w) and g[:len(w)] == w and all(k == 'n' for k, _ in w[1:] + g[len(w):])
+
+
+def all_instructions_of(lx):
+    return [l for l in (lx['logical'] or []) if l and keyword_of(l[0]) in KEYWORDS and keyword_of(l[0]) not in NOT_TOKEN_EXACT]
+
+
 def observe_file(case, tmp, oplex):
     from shelxfile import Shelxfile
     shx = Shelxfile()
-    text = render_file(case)
-    shx.read_string(text)
+    text = case.get('input') or render_file(case)
+    if case.get('crlf'):
+        text = text.replace('\n', '\r\n')      # a file that comes from another operating system: same lines
+    if case.get('dirty'):
+        shx.read_string(DIRTY)          # the object has read another file before (nothing of it may be left)
+    if case.get('via') == 'read_file':
+        p = Path(tmp) / 'input.res'
+        p.write_bytes(text.encode())
+        shx.read_file(str(p))
+    else:
+        shx.read_string(text)
     if len(shx.atoms) != len(case['atoms']):
         return dict(error=f'parse: {len(shx.atoms)} atoms, generated {len(case["atoms"])}', input=text)
     res = dict(input=text, stages=[])
@@ -454,6 +728,8 @@ def observe_file(case, tmp, oplex):
     want = [code_tokens(h) for h in case['header'] if h.split()[0].upper()[:4] in RESTR_KW]
     targets = list(want)        # the generated header instructions, addressed by the edit ops by position
     want_lines = []             # by construction: (class, blank-led, tokens) of the physical lines the edit ops inserted
+    # by construction: every generated instruction of any keyword (tokens compared as numbers / without case)
+    want_kw = [code_tokens(h) for h in case['header'] if keyword_of(h.split()[0]) in KEYWORDS and keyword_of(h.split()[0]) not in NOT_TOKEN_EXACT]
 
     def instructions_of(text):
         return [l for l in (oplex[text]['logical'] or []) if l and l[0].upper().split('_')[0][:4] in RESTR_KW]
@@ -464,29 +740,32 @@ def observe_file(case, tmp, oplex):
                 return it
         raise LookupError('instruction not in the file')
 
-    def stage(name):
+    def stage(name, obj):
         try:
-            items = expected_items(shx)
-            written = write_and_read(shx, tmp)
+            items = expected_items(obj)
+            written = write_and_read(obj, tmp)
         except Exception as e:
             res['stages'].append(dict(name=name, error=f'{type(e).__name__}'))
-            return
-        st = dict(name=name, items=items, written=written, want=[list(w) for w in want], want_lines=[list(w) for w in want_lines])
+            return None
+        st = dict(name=name, items=items, written=written, want=[list(w) for w in want], want_lines=[list(w) for w in want_lines],
+                  want_kw=[list(w) for w in want_kw])
         try:
-            st['fvars'] = (list(shx.fvars.as_stringlist), str(shx.fvars))
+            st['fvars'] = (list(obj.fvars.as_stringlist), str(obj.fvars))
             if not case.get('explicit'):
-                st['sfac'] = (list(shx.sfac_table), repr(shx.sfac_table))
+                st['sfac'] = (list(obj.sfac_table), repr(obj.sfac_table))
         except Exception as e:
             st['multi_error'] = type(e).__name__
         res['stages'].append(st)
+        return written
 
-    stage('read')
+    last = stage('read', shx)
     for k, op in enumerate(case['ops']):
         try:
             if op['op'] == 'add_line':
                 pos = dict(unit=lambda: shx.unit.position, fvar=lambda: shx.fvars.position, atom=lambda: atoms[0].index, first=lambda: 0)[op['where']]()
                 shx.add_line(pos, op['text'])
                 want.extend(instructions_of(op['text']))
+                want_kw.extend(all_instructions_of(oplex[op['text']]))
                 want_lines.extend(inserted_lines(oplex[op['text']]))
             elif op['op'] in ('replace_line', 'set'):
                 old = targets[op['target']]
@@ -502,15 +781,21 @@ def observe_file(case, tmp, oplex):
                     want_lines.extend(inserted_lines(oplex[op['text']]))
                 want.remove(old)
                 want.extend(instructions_of(op['text']))
+                if old in want_kw:
+                    want_kw.remove(old)
+                want_kw.extend(all_instructions_of(oplex[op['text']]))
             elif op['op'] == 'insert_anis':
                 shx.insert_anis(atoms=op['atoms'], residue=op['residue'])
-                want.append((['ANIS' + ('_' + op['residue'] if op['residue'] else '')] + op['atoms'].split()) if op['atoms'] else ['ANIS'])
+                w = (['ANIS' + ('_' + op['residue'] if op['residue'] else '')] + op['atoms'].split()) if op['atoms'] else ['ANIS']
+                want.append(w)
+                want_kw.append(w)
             elif op['op'] == 'insert_frag':
                 dbatoms = [[f'C{i + 1}', 1, f'{0.1 * i:.5f}', f'{1.0 + 0.25 * i:.5f}', f'{-0.5 * i:.5f}'] for i in range(op['n'])]
                 shx.insert_frag_fend_entry(dbatoms, [1, 1, 1, 90, 90, 90])
                 want_lines.append(['instruction', False, ['FRAG', '17', '1', '1', '1', '90', '90', '90']])
                 want_lines.extend(['atom', False, [str(x) for x in a]] for a in dbatoms)
                 want_lines.append(['instruction', False, ['FEND']])
+                want_kw.extend([['FRAG', '17', '1', '1', '1', '90', '90', '90'], ['FEND']])
             elif op['op'] == 'delete':
                 a = atoms[op['atom']]
                 if op['via'] == 'atomid':
@@ -519,13 +804,25 @@ def observe_file(case, tmp, oplex):
                     a.delete()
             elif op['op'] == 'element':
                 atoms[op['atom']].element = op['el']
+                # a new element extends SFAC and UNIT (C04 says how): their tokens are no longer the generated ones
+                want_kw[:] = [w for w in want_kw if keyword_of(w[0]) not in ('SFAC', 'UNIT')]
             elif op['op'] == 'isotropic':
                 atoms[op['atom']].to_isotropic()
             elif op['op'] == 'rename':
                 atoms[op['atom']].name = op['name']
         except Exception as e:   # an edit that raises is another property's business (C04/C08); the file is written as it is
             res.setdefault('op_errors', []).append((k, type(e).__name__))
-        stage(f'op{k}:{op["op"]}')
+        last = stage(f'op{k}:{op["op"]}', shx) or last
+    if case.get('reread') and last is not None:
+        # the written file is itself a valid input: read by a fresh object and written again it must be well-formed as well
+        # and still hold the generated instructions
+        want_lines = []
+        try:
+            shx2 = Shelxfile()
+            shx2.read_string(last)
+            stage('reread', shx2)
+        except Exception as e:
+            res['stages'].append(dict(name='reread', error=f'{type(e).__name__}'))
     return res
 
 
@@ -610,6 +907,34 @@ def evaluate_lines(ctx, cases):
                      dict(payload, expected=r['model']), kind='correspondence')
 
 
+def overlong_mark_lines(items):
+    """{keyword: 'blanks' | 'comment'} of the raw texts about to be written in which a physical line carries a continuation mark
+    and is longer than 80 columns only through what stands behind the mark (open finding, see known_findings.jsonl)"""
+    out = {}
+    for tname, text in items:
+        if tname != 'str' or len(text) <= COLS:
+            continue
+        parts = text.split('\n')
+        for p in parts:
+            code = p.split('!')[0].rstrip()
+            if len(p) > COLS and code.endswith('=') and len(code) <= COLS and p[:3].upper() != 'REM' and parts[0].split():
+                out[keyword_of(parts[0].split()[0])] = 'comment' if '!' in p else 'blanks'
+    return out
+
+
+def witness_cases():
+    """the inputs of the open findings, in every run (a finding that silently disappears is noticed)"""
+    head = ['TITL witness', 'CELL 0.71073 10 11 12 90 95 90', 'ZERR 2 0.001 0.001 0.001 0 0.01 0', 'LATT 1', 'SFAC C H O', 'UNIT 20 20 4']
+    tail = ['FVAR 1.0', 'C1 1 0.1 0.2 0.3 11.0 0.05', 'HKLF 4', 'END']
+    atoms = [dict(name='C1', sfac=1, xyz=(0.1, 0.2, 0.3), sof=11.0, u=(0.05,))]
+    out = []
+    for kind, first in (('blanks', 'OMIT C1 C2 =' + ' ' * 80), ('comment', 'OMIT C1 C2 = ! ' + 'comment ' * 10)):
+        text = '\n'.join(head + [first, '  C3 C4'] + tail) + '\n'
+        out.append(dict(kind='file', cls='finding-witness/' + kind, titl='witness', sfac=['C', 'H', 'O'], unit=[20, 20, 4], fvars=[1.0],
+                        fvar_per_line=7, header=['OMIT C1 C2 C3 C4'], atoms=atoms, explicit=None, input=text, all_known=False, ops=[]))
+    return out
+
+
 def first_upper(toks):
     return toks[0].upper()[:4] if toks else ''
 
@@ -632,9 +957,12 @@ def evaluate_files(ctx, cases):
             idx.append((ci, si, 'file', None))
             reqs.append(dict(p='C06', op='lex', text=''.join(t + '\n' for _, t in st['items'])))
             idx.append((ci, si, 'expected', None))
-            for k, (_, text) in enumerate(st['items']):
+            for k, (tname, text) in enumerate(st['items']):
                 reqs.append(dict(p='C06', op='wrap', s=text))
                 idx.append((ci, si, 'item', k))
+                if tname == 'str' and '\n' in text:
+                    reqs.append(dict(p='C06', op='lex', text=text + '\n'))
+                    idx.append((ci, si, 'itemlex', k))
             if 'fvars' in st:
                 reqs.append(dict(p='C06', op='fvar', vals=st['fvars'][0]))
                 idx.append((ci, si, 'fvar', None))
@@ -664,13 +992,21 @@ def evaluate_files(ctx, cases):
                 ctx.fail(f'C06|file|write-raises|{st["error"]}|{stage}', f'write_shelx_file raised {st["error"]} after {st["name"]}', payload)
                 continue
             rs = per[(ci, si)]
+            marks = overlong_mark_lines(st['items'])
+
+            def known_class(kw, sig):
+                # the open finding has a signature of its own, so that any other violation of the same oracle is still reported
+                if kw in marks:
+                    return f'C06|file|raw-continued|mark-line>80-by-{marks[kw]}'
+                return sig
             fr = [r for k, _, r in rs if k == 'file'][0]
             er = [r for k, _, r in rs if k == 'expected'][0]
             items = [r for k, _, r in rs if k == 'item']
             written = st['written']
             ctx.count(['file', ob['input'], st['name'], [o for o in c['ops'][:si]]], nontrivial=fr['maxlen'] > 70 or '=' in written,
                       tags=['file:' + cls, 'stage:' + stage, 'maxlen=' + width_class(fr['maxlen'])] +
-                           (['text:' + c['ops'][si - 1]['text_kind']] if si and 'text_kind' in c['ops'][si - 1] else []),
+                           (['text:' + c['ops'][si - 1]['text_kind']] if 0 < si <= len(c['ops']) and 'text_kind' in c['ops'][si - 1] else []) +
+                           [t for t in ('via:' + c.get('via', 'read_string'), 'dirty-object' if c.get('dirty') else None, 'crlf' if c.get('crlf') else None) if t and si == 0],
                       sample=dict(stream='file', cls=cls, stage=st['name'], longest=max(written.split('\n'), key=len)) if si == 0 else None)
             payload['actual'] = written
             # 1. width
@@ -682,7 +1018,7 @@ def evaluate_files(ctx, cases):
             # 2a. shape of the file: a line flagged as continued is followed by a line that begins with a blank
             for a, b in fr['bad_cont']:
                 kw = first_upper(a.split())
-                ctx.fail(f'C06|file|shape|{"continuation-not-blank" if b is not None else "dangling-at-eof"}|{kw if not a.startswith(" ") else "continuation"}',
+                ctx.fail(known_class(keyword_of(a.split()[0]) if a.split() else '', f'C06|file|shape|{"continuation-not-blank" if b is not None else "dangling-at-eof"}|{kw if not a.startswith(" ") else "continuation"}'),
                          f'the written line {a!r} ends in a continuation mark but ' +
                          (f'the next line {b!r} does not begin with a blank' if b is not None else 'nothing follows'),
                          dict(payload, expected='a continuation line that begins with a blank', lines=[a, b]))
@@ -703,7 +1039,7 @@ def evaluate_files(ctx, cases):
                 hy = bool(e) and any('-' in t for t in e)
                 longtok = bool(e) and any(len(t) > 75 for t in e)
                 what = 'hyphen' if hy else 'long-token' if longtok else 'plain'
-                ctx.fail(f'C06|file|tokens|{what}|{first_upper(e or [])}',
+                ctx.fail(known_class(keyword_of(e[0]) if e else '', f'C06|file|tokens|{what}|{first_upper(e or [])}'),
                          f'joining the continuation lines of the written file does not give back the tokens of instruction {k}: {g} for {e}',
                          dict(payload, expected=e, actual_logical=g))
             # 2d. by construction: the restraint-like instructions of the generated file and of the edit history are in the
@@ -715,10 +1051,35 @@ def evaluate_files(ctx, cases):
                 extra = [g for g in gotr if g not in wantr]
                 kw = first_upper((missing or extra or [['?']])[0])
                 hist = '+'.join(sorted({o['op'] for o in c['ops'][:si]})) or 'none'
-                ctx.fail(f'C06|file|instruction-tokens|{kw}|history={hist}',
+                ctx.fail(known_class(keyword_of((missing or extra or [['?']])[0][0]), f'C06|file|instruction-tokens|{kw}|history={hist}'),
                          f'after {st["name"]} the written file does not hold the generated instruction(s) with their tokens: '
                          f'missing {missing[:2]}, instead {extra[:2]}',
                          dict(payload, expected=missing, actual_logical=extra))
+            # 2g. by construction: every generated instruction of ANY keyword (the instructions the library parses into objects as
+            #     well as those it only passes through: LAUE, BEDE, LONE, OMIT, EQIV, TIME, MOLE …; in the header, between the
+            #     atoms, behind END), whatever its layout in the input, is in the written file with its tokens (numbers compared
+            #     by value, words without case; a numeric instruction may be printed with further default numbers)
+            if fr['logical'] is not None and st.get('want_kw'):
+                pool = [l for l in fr['logical'] if l]
+                missing = []
+                for w in st['want_kw']:
+                    k = next((i for i, g in enumerate(pool) if same_instruction(w, g)), None)
+                    if k is None:
+                        missing.append(w)
+                    else:
+                        pool.pop(k)
+                kws = {keyword_of(w[0]) for w in st['want_kw']}
+                extra = [g for g in pool if c.get('all_known') and keyword_of(g[0]) in kws]
+                if missing or extra:
+                    w = (missing or extra)[0]
+                    kw = keyword_of(w[0])
+                    instead = [g for g in pool if keyword_of(g[0]) == kw][:2]
+                    hist = '+'.join(sorted({o['op'] for o in c['ops'][:si]})) or 'none'
+                    ctx.fail(known_class(kw, f'C06|file|keyword-tokens|{kw}|{"missing" if missing else "extra"}|history={hist}'),
+                             f'after {st["name"]} the written file ' +
+                             (f'does not hold the generated instruction {" ".join(w)!r} with its tokens; lines with that keyword: {instead}'
+                              if missing else f'holds an instruction that was not generated: {" ".join(w)!r}'),
+                             dict(payload, expected=missing[:3], actual_logical=instead or extra[:3]))
             # 2e. every physical line is an instruction (SHELXL keyword), an atom, a comment (blank-led, REM, '!'), an include
             #     or a continuation of the line before it -- classified by the specification, not by the library
             hist = '+'.join(sorted({o['op'] for o in c['ops'][:si]})) or 'none'
@@ -740,8 +1101,19 @@ def evaluate_files(ctx, cases):
                          dict(payload, expected=w, actual_logical=same[:1]))
             # 3. no bare number, no empty line, no keyword without its parameters
             pos = 0
-            for (tname, text), ir in zip(st['items'], items):
-                for part in (merge_cont(ir['parts']) if tname == 'str' else ir['parts']):
+            itemlex = {k: r for kk, k, r in rs if kk == 'itemlex'}
+            for kitem, ((tname, text), ir) in enumerate(zip(st['items'], items)):
+                if tname == 'str' and kitem in itemlex and itemlex[kitem]['logical'] is not None:
+                    # a raw text with its continuation lines: the logical lines as the comment-aware lexer reads them (a mark
+                    # in front of a '!' comment is a mark, blank-led lines that continue nothing are comments)
+                    parts = [l for l in itemlex[kitem]['logical']]
+                    if not any(parts) and text.split():
+                        parts = []
+                else:
+                    parts = merge_cont(ir['parts']) if tname == 'str' else ir['parts']
+                if tname == 'str' and text.startswith(' '):
+                    continue            # a blank-led text that continues nothing is a comment, whatever it begins with
+                for part in parts:
                     if not part and text.split():
                         continue        # an empty line inside / behind a multi-line text (FRAG ... FEND entry): harmless
                     bare = (not part) or part[0][0] in '0123456789.-=' or (part[0][0] == '+' and len(part[0]) > 1 and part[0][1] in '0123456789.')
@@ -806,19 +1178,52 @@ def run(ctx):
                 'by-construction files (long restraint lists, anisotropic atoms, 1..45 SFAC elements, 1..99 FVARs, free text, SIZE, '
                 'explicit SFAC; input layouts with breaks between any two tokens and "!" comments behind continuation marks, with "=" and "!" '
                 'in the comment) written with write_shelx_file after read and after every step of an edit history (add_line, replace_line, '
-                'Command.set, insert_anis, insert_frag_fend_entry with short and > 80 column texts, delete, element, isotropic, rename); distinct by input text (+ history); non-trivial = instruction longer than 70 characters / file with a '
-                'line beyond 70 columns or a continuation')
+                'Command.set, insert_anis, insert_frag_fend_entry with short and > 80 column texts, delete, element, isotropic, rename); '
+                'keyword files: every SHELXL keyword (incl. the pass-through ones LAUE, BEDE, LONE, OMIT, EQIV, TIME, MOLE, HOPE, CHAN …) in every '
+                'form, the instructions between atoms (PART, AFIX, RESI, MOLE, SAME, FRAG … FEND with its coordinate lines), the atoms, the '
+                'header lines CELL … UNIT, DISP, HKLF and WGHT behind END, each continued in the INPUT directly behind the keyword / behind '
+                'every token / greedily / raggedly, with comments behind the marks, or on one line with a comment or blanks beyond column 80; '
+                'read through read_string or read_file, with LF or CRLF, by a fresh object or one that has read another file before; written '
+                'after read, after every edit and once more after a fresh object has read the written file; line stream also: instruction '
+                'ending on every column 66..80 x comment / blanks up to 81..200 columns; distinct by input text (+ history); non-trivial = '
+                'instruction longer than 70 characters / file with a line beyond 70 columns or a continuation')
     ctx.assumptions = ['the only white space inside an instruction is the blank (no tabs, which textwrap would expand)',
                        'wrap_tokens: the instruction does not itself end in "=" and no token is longer than width - indent (75); '
                        'over-long tokens are covered char-for-char (wrap_nonblank)']
     rng = ctx.rng
-    cases = boundary_cases(rng, seps=((1,), (1, 2, 3)) if ctx.budget(0, 1) else ((1, 1, 1, 2),))
-    n = ctx.budget(250, 4000)
-    for cls in LINE_CLASSES:
-        cases += [random_line(rng, cls) for _ in range(n)]
-    ctx.extra['grid'] = 'token of length 1..12 ending at every column 70..90, followed by nothing / a short token / blanks / one more line / two more lines'
-    nf = ctx.budget(600, 4000)
+    ctx.extra['grid'] = ('token of length 1..12 ending at every column 70..90, followed by nothing / a short token / blanks / one more line / '
+                         'two more lines; instruction ending at every column 66..80 followed by a comment / blanks up to 81..200 columns; every '
+                         'SHELXL keyword in every form continued directly behind the keyword and in a second layout')
+    def budget(quick, edited, thorough):
+        # quick tier on a tree whose mirrored source was edited: more than quick, but still inside the quick tier's wall time
+        return thorough if ctx.tier == 'thorough' else edited if ctx.escalated else quick
+
+    n = budget(250, 1500, 4000)
+    nk = budget(120, 300, 1500)
+    nf = budget(600, 1500, 4000)
     fcls = ['restraints', 'aniso', 'sfac', 'fvars', 'free-text', 'edits', 'size', 'sfac-explicit', 'layout']
-    cases += [make_file_case(rng, fcls[i % len(fcls)] if i < 4 * len(fcls) else None) for i in range(nf)]
-    for i in range(0, len(cases), 400):
-        evaluate(ctx, cases[i:i + 400])
+
+    def keyword_case(i):
+        return make_keyword_case(rng, wide=[None, None, 'comment', 'blanks'][i % 4], ops=[0, 0, 1, 3][i % 4 if i % 8 < 4 else 0])
+
+    def phases():
+        # the small systematic enumerations first (part of the quick budget by construction), the random bulk after; cases are
+        # generated phase by phase, so that a tree that fails early does not pay for the generation of the rest
+        yield boundary_cases(rng, seps=((1,), (1, 2, 3)) if ctx.budget(0, 1) else ((1, 1, 1, 2),)) + threshold_cases(rng)
+        yield systematic_keyword_cases(rng) + witness_cases()
+        yield [keyword_case(i) for i in range(min(nk, 40))] + [make_file_case(rng, fcls[i % len(fcls)]) for i in range(4 * len(fcls))]
+        for cls in LINE_CLASSES:
+            yield [random_line(rng, cls) for _ in range(n)]
+        for k in range(40, nk, 200):
+            yield [keyword_case(i) for i in range(k, min(nk, k + 200))]
+        for k in range(4 * len(fcls), nf, 400):
+            yield [make_file_case(rng) for _ in range(k, min(nf, k + 400))]
+
+    for cases in phases():
+        for i in range(0, len(cases), 400):
+            evaluate(ctx, cases[i:i + 400])
+        if ctx.broken and any(f['kind'] == 'property' and f['signature'] not in ctx.known for f in ctx.failures):
+            # an obligation is broken (constants lost, theorem no longer checks) and failing inputs of the property are on the
+            # table: the failing-input search has done its job (DESIGN 4, step 6)
+            ctx.note('exploration stopped after the phase that exhibited failing inputs')
+            break
